@@ -8,3 +8,10 @@ import TlxVerif.Props.C03
 #print axioms TlxVerif.C03.border_loop_correct
 #print axioms TlxVerif.C03.multikey_quicksort_correct_partial
 #print axioms TlxVerif.C03.radixsort_CE0_correct_partial
+#print axioms TlxVerif.C03.radix16_step
+#print axioms TlxVerif.C03.radixsort_CE2_correct_partial
+#print axioms TlxVerif.C03.radixsort_CE3_correct_partial
+#print axioms TlxVerif.C03.radixsort_CI2_correct_partial
+#print axioms TlxVerif.C03.radixsort_CI3_correct_partial
+#print axioms TlxVerif.C03.sort_strings_correct_partial
+#print axioms TlxVerif.C03.sort_strings_correct_of
